@@ -8,6 +8,7 @@ def moves(empty):
     for h in range(H):
         if empty[h]:
             out.append(("create %d %d" % (h, 3 + h), h, None))
+            out.append(("createbad %d" % h, None, None))
             for g in range(H):
                 if not empty[g] and g != h:
                     out += [("copyc %d %d" % (h, g), h, None), ("movec %d %d" % (h, g), h, g)]
